@@ -42,8 +42,20 @@ pub fn contained(k: usize, c: &Value) -> Option<String> {
     let o = &os[which];
     let closed = !o["lox"].as_bool().unwrap() && !o["hix"].as_bool().unwrap();
     let pos = c["pos"].as_str().unwrap();
-    (c["ty"] == "INTEGER" && matches!(pos, "assignment" | "component" | "refcomp") && k % 3 == 2 && os.len() >= 2 && closed)
-        .then(|| format!("Ti{k} ::= INTEGER ({})", operand(o, Ends::Literal)))
+    // also the whole constraint may be a contained subtype, INTEGER (Ti<k>): single-operand cases; and the contained type may be
+    // given as a constrained *reference* to another INTEGER type (every second one): Ti<k> ::= Tb<k> (lo..hi)
+    (c["ty"] == "INTEGER" && matches!(pos, "assignment" | "component" | "refcomp") && k % 3 == 2 && closed).then(|| {
+        if (k / 3) % 2 == 1 {
+            format!("Tb{k} ::= INTEGER\nTi{k} ::= Tb{k} ({})", operand(o, Ends::Literal))
+        } else {
+            format!("Ti{k} ::= INTEGER ({})", operand(o, Ends::Literal))
+        }
+    })
+}
+
+/// the keyword INCLUDES is optional (X.680 51.3.1); it is left out in every fourth spelling
+fn includes(k: usize) -> String {
+    if (k / 3) % 4 >= 2 { format!("Ti{k}") } else { format!("INCLUDES Ti{k}") }
 }
 
 /// the operand that is written as contained subtype: the first or the last one, alternating
@@ -55,7 +67,7 @@ fn expr(k: usize, c: &Value, mode: Ends) -> String {
     let os = c["os"].as_array().unwrap();
     let ps = c["ps"].as_array().unwrap();
     let inc = contained(k, c).map(|_| contained_index(k, c));
-    let mut s = if inc == Some(0) { format!("INCLUDES Ti{k}") } else { operand(&os[0], mode) };
+    let mut s = if inc == Some(0) { includes(k) } else { operand(&os[0], mode) };
     for (i, p) in ps.iter().enumerate() {
         let op = match p.as_str().unwrap() {
             "u" => "|",
@@ -63,7 +75,7 @@ fn expr(k: usize, c: &Value, mode: Ends) -> String {
             _ => "EXCEPT",
         };
         if inc == Some(i + 1) {
-            s = format!("{s} {op} INCLUDES Ti{k}");
+            s = format!("{s} {op} {}", includes(k));
             continue;
         }
         s = format!("{s} {op} {}", operand(&os[i + 1], mode));
